@@ -273,6 +273,200 @@ CORE_ASSUMPTIONS = [
 ]
 
 
+# ============================================================================= pacing engine
+# MC_Pacing.tla (GcHeap with the real debt arithmetic) -> behaviours replayed with EQUALITY of the
+# scaled debt after every operation; random driver with natural pacing; GcMonitor rules C09.*, C10.*
+
+PACINGS = {            # (sf, ms, mf, tf, kf, df, ff) in 16ths
+    "stw": (16, 0, 0, 0, 0, 0, 0),
+    "default_like": (8, 1, 2, 6, 1, 3, 5),
+    "near_limit": (16, 2, 5, 9, 1, 8, 7),
+    "no_sleep": (0, 0, 1, 2, 1, 1, 2),
+}
+PACING_PROPS = ["C09_CollectDebtPays", "C09_StopOrPaid", "C09_StopTheWorld", "C09_RhoBound", "C10_AdjustExact",
+                "C10_MutatorNeverPays"]
+
+
+def pacing_cfg(pq, n=2, max_ops=6, adjusts=(16, 48), emit="states", kinds=("N", "S")):
+    objs = ", ".join(f"o{i + 1}" for i in range(n))
+    consts = {"Obj": "{" + objs + "}", "NoObj": "NoObj", "MaxKids": 2, "MaxWeak": 1, "Kinds": tla_set(kinds),
+              "Budgets": "{1}", "Grans": '{"P1"}', "SF": pq[0], "MS": pq[1], "MF": pq[2], "TF": pq[3], "KF": pq[4],
+              "DF": pq[5], "FF": pq[6], "MaxOps": max_ops, "Adjusts": tla_set(adjusts, quote=False), "Emit": f'"{emit}"'}
+    return cfg_text(spec="Spec", constants=consts, invariants=["Invs"] + (["EmitStates"] if emit == "states" else []),
+                    properties=PACING_PROPS, constraints=["Bounded"], symmetry="Perms", view="vw")
+
+
+def pacing_models(tier, d):
+    runs, files = [], []
+    jobs = []
+    for name, pq in PACINGS.items():
+        jobs.append((name, pq, 6 if tier == "quick" else 8, (16, 48) if tier == "quick" else (16, 48, -16)))
+
+    def run(job):
+        name, pq, k, adj = job
+        r = run_tlc("MC_Pacing", pacing_cfg(pq, max_ops=k, adjusts=adj), "pac_" + name, d, workers=7, timeout=3000, xmx="10g")
+        model_error(r)
+        f = os.path.join(d, f"beh_pac_{name}.ndjson")
+        n, _ = extract_behaviours(r["out"], f, limit=80000 if tier == "quick" else 600000)
+        r["behaviours"] = n
+        os.remove(r["out"])
+        return r, (name, f)
+
+    from concurrent.futures import ThreadPoolExecutor
+    with ThreadPoolExecutor(max_workers=2) as ex:
+        for r, bf in ex.map(run, jobs):
+            runs.append(r)
+            files.append(bf)
+    return {"tlc": runs, "beh_files": files}
+
+
+def random_runs(binary, d, name, shards, runs_per_shard, steps, sd):
+    """Seeded random driver, judged by the monitor."""
+    def one(i):
+        tr = os.path.join(d, f"{name}.{i}.trace.ndjson")
+        rp = os.path.join(d, f"{name}.{i}.report.json")
+        p = gcv.run_harness(binary, ["random", "--seed", str(sd), "--first", str(i * runs_per_shard), "--runs",
+                                     str(runs_per_shard), "--steps", str(steps), "--trace", tr, "--report", rp])
+        if p.returncode != 0:
+            return {"crash": True, "rc": p.returncode, "stderr": p.stderr[-2000:], "shard": i, "trace": tr}
+        rep = json.load(open(rp))
+        v = gcv.monitor(tr, d, f"{name}.{i}", timeout=3000)
+        return {"crash": False, "report": rep, "verdict": v, "shard": i, "trace": tr}
+
+    from concurrent.futures import ThreadPoolExecutor
+    with ThreadPoolExecutor(max_workers=min(shards, NCPU)) as ex:
+        parts = list(ex.map(one, range(shards)))
+    m = {"behaviours": 0, "runs": 0, "ops": 0, "events": 0, "drift": 0, "diverged": 0, "skipped_ops": 0, "viol": [],
+         "nviol": 0, "hits": {}, "crashes": [], "drift_samples": [], "debt_drift": 0, "debt_checked": 0}
+    for p in parts:
+        if p["crash"]:
+            m["crashes"].append({"shard": p["shard"], "rc": p["rc"], "stderr": p["stderr"]})
+            continue
+        rep, v = p["report"], p["verdict"]
+        for k in ("behaviours", "runs", "ops", "events"):
+            m[k] += rep.get(k, 0)
+        m["nviol"] += v["nviol"]
+        for x in v["viol"]:
+            m["viol"].append({"prop": x[0], "rule": x[1], "line": x[2], "obj": x[3], "beh": x[4], "trace": p["trace"],
+                              "extra": {"random": True, "seed": sd, "run": x[4], "steps": steps}})
+        for k, n in v["hits"].items():
+            m["hits"][k] = m["hits"].get(k, 0) + n
+        if not v["viol"] and os.path.exists(p["trace"]):
+            os.remove(p["trace"])
+    return m
+
+
+def pacing_engine(tier, d):
+    t0 = time.time()
+    models, md = memo("pmodel-" + tier, spec_key(f"-{seed()}"), lambda dd: pacing_models(tier, dd))
+    replays, bf = {}, {}
+    samples = []
+    for profile in ("debug", "release"):
+        binary = build_harness(profile)
+        for name, f in [tuple(x) for x in models["beh_files"]]:
+            src = f"pac_{name}:{profile}"
+            # every behaviour is replayed with exact comparison of the debt; the monitor judges a sample
+            sub = os.path.join(d, f"sub_{name}.ndjson")
+            with open(f) as fi, open(sub, "w") as fo:
+                for i, line in enumerate(fi):
+                    if i % 16 == 0:
+                        fo.write(line)
+                    if profile == "debug" and i in (3, 3000) and len(samples) < 4:
+                        samples.append(json.loads(line).get("ops"))
+            rp = os.path.join(d, f"{name}.{profile}.full.report.json")
+            tr = os.path.join(d, f"{name}.{profile}.full.trace.ndjson")
+            p = gcv.run_harness(binary, ["replay", "--in", f, "--trace", tr, "--report", rp, "--epilogues", "drop"])
+            if os.path.exists(tr):
+                os.remove(tr)
+            if p.returncode != 0:
+                raise ToolError(f"harness crashed replaying {f}: rc={p.returncode} {p.stderr[-500:]}")
+            full = json.load(open(rp))
+            res = replay_and_judge(binary, sub, d, f"pac_{name}.{profile}", shards=6, epilogues="c02")
+            res["debt_checked"] = full.get("debt_checked", 0)
+            res["debt_drift"] = full.get("debt_drift", 0)
+            res["debt_drift_samples"] = [x for x in full.get("drift_samples", []) if x.get("fields") == ["debt"]][:3]
+            res["full_behaviours"] = full.get("behaviours", 0)
+            res["full_ops"] = full.get("ops", 0)
+            replays[src] = res
+            bf[src] = sub
+            for i in range(6):
+                t = os.path.join(d, f"pac_{name}.{profile}.{i}.trace.ndjson")
+                if t not in {v["trace"] for v in res["viol"]} and os.path.exists(t):
+                    os.remove(t)
+        shards, per, steps = (8, 40, 150) if tier == "quick" else (16, 600, 250)
+        rr = random_runs(binary, d, f"random.{profile}", shards, per, steps, seed())
+        replays[f"random:{profile}"] = rr
+    return {"tier": tier, "tlc": models["tlc"], "replays": replays, "beh_files": bf, "samples": samples,
+            "wall_s": round(time.time() - t0, 1)}
+
+
+PACING_MUST_HIT = {
+    "C09": ["C09.r1", "C09.r2", "C09.r2m", "C09.r3", "C09.r4", "C09.r5", "C09.r5b"],
+    "C10": ["C10.r1", "C10.r2", "C10.r3", "C10.r4", "C10.r5", "C10.r6"],
+}
+PACING_INVS = {
+    "C09": ["C09_CollectDebtPays", "C09_StopOrPaid", "C09_StopTheWorld", "C09_RhoBound", "C09_SleepHonoured"],
+    "C10": ["C10_ZeroWhenEmpty", "C10_AdjustExact", "C10_MutatorNeverPays (F2 carved out by name)", "C10_NoCounterFault"],
+}
+
+
+def check_pacing(prop, tier):
+    t0 = time.time()
+    key = tree_key(f"-{tier}-{seed()}")
+    res, d = memo("pacing-" + tier, key, lambda dd: pacing_engine(tier, dd))
+    m = merged_replays(res)
+    if m["crashes"]:
+        raise ToolError(f"harness crashed: {m['crashes'][:1]}")
+    if prop == "C10":
+        # the count / sign / zero rules are also judged on every trace of the core engine
+        core, _ = memo("core-" + tier, key, lambda dd: core_engine(tier, dd))
+        mc = merged_replays(core)
+        for v in mc["viol"]:
+            m["viol"].append(v)
+        for k, n in mc["hits"].items():
+            m["hits"][k] = m["hits"].get(k, 0) + n
+        m["events"] += mc["events"]
+        m["runs"] += mc["runs"]
+        res["beh_files"].update(core["beh_files"])
+    viols = [v for v in m["viol"] if v["prop"] == prop]
+    tool = [v for v in m["viol"] if v["prop"] == "TOOL"]
+    if tool:
+        raise ToolError(f"monitor could not interpret the trace: {tool[:2]}")
+    missing = [r for r in PACING_MUST_HIT[prop] if m["hits"].get(r, 0) == 0]
+    if missing:
+        raise ToolError(f"vacuous run: rules never exercised: {missing}")
+    new = report_violations(prop, viols, res, known_findings())
+    debt_checked = sum(r.get("debt_checked", 0) for r in res["replays"].values())
+    debt_drift = sum(r.get("debt_drift", 0) for r in res["replays"].values())
+    cov = {
+        "states": sum(r["distinct"] for r in res["tlc"]), "transitions": sum(r["generated"] for r in res["tlc"]),
+        "traces_validated_against_impl": max(m["runs"] - len({(v["source"], v["beh"]) for v in m["viol"] if v["prop"] == prop}), 0),
+        "samples": res["samples"][:3],
+        "exhaustive": False,
+        "tlc_runs": [{k: r.get(k) for k in ("name", "distinct", "generated", "depth", "complete", "wall_s", "behaviours")} for r in res["tlc"]],
+        "pacings_x16": PACINGS,
+        "model_properties_checked": PACING_INVS[prop],
+        "behaviours_replayed_with_exact_debt_comparison": debt_checked,
+        "behaviours_whose_debt_differs_from_the_model": debt_drift,
+        "random_driver_runs": sum(r["runs"] for k, r in res["replays"].items() if k.startswith("random")),
+        "trace_events_judged": m["events"],
+        "monitor_rule_hits": {k: v for k, v in sorted(m["hits"].items()) if k.startswith(prop)},
+        "known_findings_seen": sorted({v["rule"] for v in viols if match_finding(prop, v, known_findings())}),
+        "shared_run_memoised": res.get("memoised", False), "shared_run_wall_s": res["wall_s"],
+        "checker_cmd": "tlc MC_Pacing.tla ; gcv-harness replay|random ; tlc GcMonitorTrace.tla",
+    }
+    write_evidence(prop, tier, "model_checking", cov, PACING_ASSUMPTIONS, time.time() - t0, len(viols))
+    return 1 if new else 0
+
+
+PACING_ASSUMPTIONS = [
+    "debts are compared for EQUALITY only under dyadic pacing factors (k/16) and magnitudes far below 2^53, where the crate's f64 arithmetic is exact",
+    "the rho bound is exhausted by TLC only for heaps of 2 objects; larger H is explored by the seeded random driver",
+    "the sleep rule is applied after cycles that ran atomically from Sleeping (the weaker reading of 'no debt carried over')",
+    "rule C10.r5f (a forward barrier that marks is credited mark_factor) is known finding F2, reported as KNOWN-FINDING",
+]
+
+
 # ============================================================================= dispatch
 def dispatch(argv):
     cmd = argv[0]
@@ -286,6 +480,8 @@ def dispatch(argv):
         return replay_file(argv[1])
     if cmd in CORE_PROPS:
         return check_core(cmd, tier)
+    if cmd in ("C09", "C10"):
+        return check_pacing(cmd, tier)
     print(f"unknown command {cmd}", file=sys.stderr)
     return 2
 
